@@ -9,6 +9,7 @@ import SymfcModel.Lemmas.Col0
 import SymfcModel.Lemmas.Order3
 import SymfcModel.Lemmas.Components
 import SymfcModel.Lemmas.Pipeline
+import SymfcModel.Lemmas.Corollaries
 namespace Symfc.C01
 open Symfc
 
@@ -191,5 +192,24 @@ theorem range_of_c_pt_is_the_invariant_subspace {K : Type*} [Field K] {n k G : T
     (∃ z : k → K, x = (Matrix.of (fun i j => if label i = some j then w j else 0)).mulVec z) ↔
       ((∀ i, label i = none → x i = 0) ∧ (∀ s i, x (g s i) = x i)) :=
   Pipeline.indicator_range_invariant label w hcount g horbit hnone x
+
+/-- C01, capstone (K1): EVERY tensor `x = B c` expanded in the returned basis `B = A W₂ W₃` is invariant under all the
+    index permutations. Symbols: `A` = `c_pt`, the normalised indicator matrix (`w j` = 1/√|class j|, `hcount`) of
+    `label` = the connected components of the permutation stage, which by `C01_order2/3/4` + `rows_are_whole_orbits` are
+    exactly the S_n × T orbits — the orbits of the family `g s` (index permutations combined with lattice translations,
+    `horbit`); `label i = none` = element eliminated (never written; beyond the cutoff), which `g s` keeps eliminated
+    (`hnone`). `W₂` (`c_rpt`) and `W₃` (`eigvecs`) may be ANY matrices: no eigen contract is needed for this property,
+    the later stages only recombine columns of `c_pt`. Also: `x` vanishes on every eliminated element. -/
+theorem every_basis_vector_is_invariant_under_the_index_permutations {K : Type*} [Field K] {n k k₂ k₃ G : Type*}
+    [Fintype n] [Fintype k] [Fintype k₂] [Fintype k₃] [DecidableEq k] (label : n → Option k) (w : k → K)
+    (hcount : ∀ j, (w j) ^ 2 * ((Finset.univ.filter (fun i => label i = some j)).card : K) = 1)
+    (g : G → Equiv.Perm n)
+    (horbit : ∀ i j, label i ≠ none → (label i = label j ↔ ∃ s : G, g s i = j))
+    (hnone : ∀ s i, label i = none → label (g s i) = none)
+    (A : Matrix n k K) (hAdef : A = Matrix.of (fun i j => if label i = some j then w j else 0))
+    (W₂ : Matrix k k₂ K) (W₃ : Matrix k₂ k₃ K) (c : k₃ → K) :
+    (∀ s i, ((A * W₂ * W₃).mulVec c) (g s i) = ((A * W₂ * W₃).mulVec c) i) ∧
+      (∀ i, label i = none → ((A * W₂ * W₃).mulVec c) i = 0) :=
+  Corollaries.basis_vectors_are_invariant_under_the_permutations label w hcount g horbit hnone A hAdef W₂ W₃ c
 
 end Symfc.C01
